@@ -112,6 +112,9 @@ def run(res, tier, seed, replay=None):
             if tier == "thorough" and not replay and got[2] in ("default", "c32"):
                 # lengths of 2^32 bytes and more: size_t parameters must not be processed modulo 2^32 (harness/x_huge.c)
                 res.cov.setdefault("huge_lengths", {})[got[2]] = common.run_huge(res, got[0], got[2], ["aead128a"])
+            if not replay and got[2] == ("default" if tier == "quick" else "c64"):
+                # associated data of 2^32+5 bytes through each variant's one-shot encryption (zero pages, read only): three processes side by side
+                res.cov.setdefault("huge_lengths", {})[got[2] + "-ad"] = common.run_huge(res, got[0], got[2], ["ad128", "ad128a", "ad80pq"], parallel=True)
     res.cov.update({
         "evaluations": sum(p["sessions"] for p in per),
         "distinct_nontrivial": max([p["nontrivial"] for p in per] or [0]),
